@@ -282,15 +282,16 @@ const regPrefix = "a/"
 // ---- hooks -------------------------------------------------------------------------------------------
 
 type hxHook struct {
-	w          *world
-	id         string
-	pg, og, pp string // behaviour per phase: "-" unused, "p" pass, "v<code>" veto, "s<n>" replace by a copy with N=n
-	ncalls     int64
+	database.HookBase // what a hook does not declare / does not change is left to portbase's own base implementation
+	w                 *world
+	id                string
+	pg, og, pp        string // behaviour per phase: "-" unused, "p" pass, "v<code>" veto, "s<n>" replace by a copy with N=n
+	ncalls            int64
 }
 
-func (h *hxHook) UsesPreGet() bool  { return h.pg != "-" }
-func (h *hxHook) UsesPostGet() bool { return h.og != "-" }
-func (h *hxHook) UsesPrePut() bool  { return h.pp != "-" }
+func (h *hxHook) UsesPreGet() bool  { return h.pg != "-" || h.HookBase.UsesPreGet() }
+func (h *hxHook) UsesPostGet() bool { return h.og != "-" || h.HookBase.UsesPostGet() }
+func (h *hxHook) UsesPrePut() bool  { return h.pp != "-" || h.HookBase.UsesPrePut() }
 
 func (h *hxHook) PreGet(key string) error {
 	atomic.AddInt64(&h.ncalls, 1)
@@ -298,7 +299,7 @@ func (h *hxHook) PreGet(key string) error {
 	if h.pg[0] == 'v' {
 		return &vetoErr{h.pg[1:]}
 	}
-	return nil
+	return h.HookBase.PreGet(key)
 }
 
 func (h *hxHook) onRec(phase, beh string, r record.Record) (record.Record, error) {
@@ -319,7 +320,10 @@ func (h *hxHook) onRec(phase, beh string, r record.Record) (record.Record, error
 		c.Meta().Deleted = 1000
 		return c, nil
 	}
-	return r, nil
+	if phase == "og" {
+		return h.HookBase.PostGet(r)
+	}
+	return h.HookBase.PrePut(r)
 }
 
 func (h *hxHook) PostGet(r record.Record) (record.Record, error) { return h.onRec("og", h.og, r) }
@@ -432,7 +436,8 @@ func (w *world) Close() error {
 	return nil
 }
 
-// iface returns the interface for an option code: letters L(ocal) I(nternal) S(always secret) C(always crownjewel),
+// iface returns the interface for an option code: letters L(ocal) I(nternal) S(always secret) C(always crownjewel)
+// E(always set an absolute expiry in the far future),
 // "+c" read cache, "+w" read cache with delayed writes; "-" = no options.
 func (w *world) iface(code string) *database.Interface {
 	if i, ok := w.ifaces[code]; ok {
@@ -442,6 +447,9 @@ func (w *world) iface(code string) *database.Interface {
 	o := &database.Options{
 		Local: strings.Contains(base, "L"), Internal: strings.Contains(base, "I"),
 		AlwaysMakeSecret: strings.Contains(base, "S"), AlwaysMakeCrownjewel: strings.Contains(base, "C"),
+	}
+	if strings.Contains(base, "E") {
+		o.AlwaysSetAbsoluteExpiry = expFuture
 	}
 	switch ext {
 	case "c":
@@ -499,7 +507,7 @@ func validIface(code string) bool {
 		return false
 	}
 	for _, c := range base {
-		if !strings.ContainsRune("LISC", c) {
+		if !strings.ContainsRune("LISCE", c) {
 			return false
 		}
 	}
@@ -630,9 +638,12 @@ func drainOne(ch chan record.Record) (recs []record.Record, closed bool) {
 	}
 }
 
-func (w *world) drain() string {
+func (w *world) drain() string { return w.drainSubs(w.subs) }
+
+// drainSubs empties the feeds of the given subscriptions (all of them for `drain`, one for `drain1`).
+func (w *world) drainSubs(which []*subState) string {
 	var b strings.Builder
-	subs := append([]*subState{}, w.subs...)
+	subs := append([]*subState{}, which...)
 	sort.SliceStable(subs, func(i, j int) bool {
 		a, _ := strconv.Atoi(subs[i].sid)
 		c, _ := strconv.Atoi(subs[j].sid)
@@ -655,7 +666,7 @@ func (w *world) drain() string {
 			b.WriteByte('x')
 		}
 	}
-	if len(w.subs) == 0 {
+	if len(which) == 0 {
 		return "-"
 	}
 	return b.String()
@@ -667,13 +678,13 @@ func (w *world) Do(line string) string {
 	if len(f) == 0 {
 		return "bad-op"
 	}
-	if f[0] == "conc" {
+	if f[0] == "conc" || f[0] == "hconc" {
 		return w.doConc(line)
 	}
 	w.callMu.Lock()
 	w.calls = nil // calls left over from an operation that panicked
 	w.callMu.Unlock()
-	if f[0] == "ev" || f[0] == "obs" || f[0] == "cs" || f[0] == "cw" {
+	if f[0] == "ev" || f[0] == "obs" || f[0] == "cs" || f[0] == "cw" || f[0] == "ch" || f[0] == "cr" || f[0] == "cg" {
 		return "ok" // recorded trace lines: the real run already happened (see conc.go); the model is the acceptor
 	}
 	if f[0] == "cfgpush" { // NoModel: the real config package as injected database
@@ -682,6 +693,13 @@ func (w *world) Do(line string) string {
 			return "bad-op"
 		}
 		return cfgPush(atomic.AddInt64(&dbCounter, 1), n)
+	}
+	if f[0] == "purgecase" { // NoModel: Interface.Purge on a fresh bbolt database
+		n, err := strconv.Atoi(sel(f, 1))
+		if len(f) != 3 || err != nil || n < 0 || n > 50 || !validIface(f[2]) || strings.Contains(f[2], "+") {
+			return "bad-op"
+		}
+		return purgeCase(atomic.AddInt64(&dbCounter, 1), n, f[2])
 	}
 	if f[0] == "cfgops" { // NoModel: the real config StorageInterface behind the database interface
 		if len(f) < 2 || len(f) > 40 {
@@ -752,6 +770,15 @@ func (w *world) Do(line string) string {
 			return "bad-op"
 		}
 		return w.drain()
+	case "drain1": // drain1 <sid>: the subscriber of one subscription reads its feed empty, the others are left alone
+		if len(f) != 2 || !isNum(f[1]) {
+			return "bad-op"
+		}
+		s := w.findSub(f[1])
+		if s == nil {
+			return "bad-op"
+		}
+		return w.drainSubs([]*subState{s})
 	case "hook": // hook <hid> <qid> <pg> <og> <pp>
 		if len(f) != 6 {
 			return "bad-op"
@@ -798,6 +825,20 @@ func (w *world) Do(line string) string {
 			}()
 		}
 		return errClass(err) + w.takeCalls()
+	case "putmany": // putmany <iface> <key> <n> <s> <flags>: a batch of one record through Interface.PutMany, committed
+		if len(f) != 6 || strings.Contains(f[1], "+") || !validIface(f[1]) || !okKey(f[2]) || !okStr(f[4]) || !okFlags(f[5]) ||
+			(w.kind != "hashmap" && w.kind != "bbolt") {
+			return "bad-op"
+		}
+		n, err := strconv.ParseInt(f[3], 10, 64)
+		if err != nil {
+			return "bad-op"
+		}
+		put := w.iface(f[1]).PutMany(w.dbName)
+		if err = put(w.newRec(f[2], n, f[4], unq(f[5]))); err == nil {
+			err = put(nil) // commit; returns when the storage has processed the batch
+		}
+		return errClass(err) + w.takeCalls()
 	case "del", "mksec", "mkcj":
 		if len(f) != 3 || !w.ifaceFor(f[0], f[1]) || !okKey(f[2]) {
 			return "bad-op"
@@ -840,6 +881,24 @@ func (w *world) Do(line string) string {
 			return errClass(err) + w.takeCalls()
 		}
 		return "ok " + fmtRecLocked(r) + w.takeCalls()
+	case "exists":
+		if len(f) != 3 || !w.ifaceFor(f[0], f[1]) || !okKey(f[2]) {
+			return "bad-op"
+		}
+		ok, err := w.iface(f[1]).Exists(w.dbName + ":" + f[2])
+		if err != nil {
+			return errClass(err) + w.takeCalls()
+		}
+		return fmt.Sprintf("ok %v", ok) + w.takeCalls()
+	case "relexp": // relexp <iface> <key> <0|-1>: SetRelativateExpiry with a duration that leaves the metadata as it is
+		if len(f) != 4 || !w.ifaceFor(f[0], f[1]) || !okKey(f[2]) || (f[3] != "0" && f[3] != "-1") {
+			return "bad-op"
+		}
+		d := int64(0)
+		if f[3] == "-1" {
+			d = -1
+		}
+		return errClass(w.iface(f[1]).SetRelativateExpiry(w.dbName+":"+f[2], d)) + w.takeCalls()
 	case "raw":
 		if len(f) != 2 || !okKey(f[1]) {
 			return "bad-op"
